@@ -471,7 +471,7 @@ fn record(out: &str, a: &Args) {
                 23 => json!({"c":"reinterpret","base":*r.pick(&["B1","none"])}),
                 24 => json!({"c":"entry_value","sub":[{"c":"reg","reg":r.below(40)},{"c":"constu","v":v64(r)}]}),
                 25 | 26 => json!({"c":"reg","reg":*r.pick(&[0u64,31,32,1000,65535])}),
-                27 => json!({"c":"implicit_value","data":(0..*r.pick(&[0u64,1,3,130])).map(|_| r.below(256)).collect::<Vec<u64>>()}),
+                27 => json!({"c":"implicit_value","data":(0..*r.pick(&[0u64,1,3,130,130,20000,40000])).map(|_| r.below(256)).collect::<Vec<u64>>()}),
                 28 => json!({"c":"implicit_pointer","ent":*r.pick(&["T1","X1","X2"]),"off":v64(r)}),
                 29 => json!({"c":"piece","n":bv(r.boundary64() >> 4, 8)}),
                 30 => json!({"c":"bit_piece","bits":v64(r),"bitoff":v64(r)}),
